@@ -163,6 +163,7 @@ int main(int argc, char **argv) {
   setenv("RC_PARAMS", params.c_str(), 1);
   Case lastfail; std::string lastwhy;
   bool ok = rc::check("C12: same verdict under both providers", [&]() {
+    if (v::shrink_exhausted()) return;
     Case c; auto cell = *rc::gen::elementOf(cells); c.key = cell.first; c.algi = cell.second; c.cfg = *UNI(0, 2); c.pay = *UNI(0, NPAY);
     int nm = *rc::gen::weightedElement<int>({{2, 0}, {10, 1}, {4, 2}});
     for (int i = 0; i < nm; i++) { Mut m; m.kind = *UNI<int>(0, (int)M_NKINDS); m.a = *UNI(0, 1 << 20); m.b = *UNI(0, 1 << 20); m.c = *UNI(0, 1 << 20); c.muts.push_back(m); }
@@ -175,7 +176,7 @@ int main(int argc, char **argv) {
     for (auto &m : c.muts) t = apply(k, alg, c.pay, t, m);
     c.token = t.substr(0, t.find('\0'));
     std::string r = run_verdict_case(c, true);
-    if (!r.empty()) { std::string sig = "C12:" + r; if (st.is_known(sig)) { st.known_hits[sig]++; return; } lastfail = c; lastwhy = r; RC_FAIL(r); }
+    if (!r.empty()) { std::string sig = "C12:" + r; if (st.is_known(sig)) { st.known_hits[sig]++; return; } lastfail = c; lastwhy = r; v::fail_seen()++; RC_FAIL(r); }
   });
   if (!ok && !lastwhy.empty()) st.violation("C12:" + lastwhy, "OpenSSL and GnuTLS disagree on a token that is RFC-valid or not validly signed at all", case_json(lastfail));
   return finish();
